@@ -16,6 +16,7 @@ import json
 import os
 
 import vlib
+from checks import _ps35 as P
 
 SPEC = os.path.join(vlib.SPECS, "ps35")
 
@@ -32,6 +33,8 @@ def run(ctx):
         "tags and lengths are boundary samples (as the property's quantifier says), VRs/syntaxes/codes exhaustive",
     ]
     vlib.build_harness(["drv_header"])
+    if P.replay(ctx, "C03"):
+        return
     cases = ctx.path("hdr_cases.ndjson")
     gr, n = vlib.tlc_generate(SPEC, "Gen_Hdr", "Gen_Hdr.cfg", cases, timeout=900)
     ctx.add_tlc(gr)
